@@ -6,6 +6,7 @@ import (
 	"time"
 
 	"github.com/hydraide/hydraide/app/core/hydra/swamp"
+	"github.com/hydraide/hydraide/app/core/hydra/swamp/beacon"
 	"github.com/hydraide/hydraide/app/core/hydra/swamp/treasure"
 	"github.com/hydraide/hydraide/app/verifhook"
 	hydrapb "github.com/hydraide/hydraide/sdk/go/hydraidego/v3/hydraidepbgo"
@@ -236,11 +237,15 @@ func timeBoundsNanos(from, to *time.Time) (int64, int64) {
 	const minInt64 = -maxInt64 - 1
 	fromNano := minInt64
 	toNano := maxInt64
-	if from != nil {
-		fromNano = from.UTC().UnixNano()
+	fn, tn, hasFrom, hasTo, empty := beacon.WindowNanos(from, to)
+	if empty {
+		return maxInt64, minInt64
 	}
-	if to != nil {
-		toNano = to.UTC().UnixNano()
+	if hasFrom {
+		fromNano = fn
+	}
+	if hasTo {
+		toNano = tn
 	}
 	return fromNano, toNano
 }
